@@ -154,6 +154,8 @@ class Workspace:
             return f"d_{t}_{outv}"
         if k == "pair":
             return f"pr_{t}_{outv}"      # the two declared file outputs are <this>/1 and <this>/2
+        if k == "bin":
+            return f"{t}.{outv}.bin"     # declared as bin_output, no other output
         return None
 
     def resolve(self, st, d):
@@ -210,6 +212,8 @@ class Workspace:
                     body.append(f'sha256sum < {tmpf} > "{out}/{i}"')
                 else:
                     body.append(f'{{ echo "{t} {c} {s["outv"]}"; cat "{ins[i - 1]}.in"; }} | sha256sum > "{out}/{i}"')
+        elif kind == "bin":
+            body += [f'sha256sum < {tmpf} > "{out}"', f'chmod +x "{out}"']
         elif kind == "file":
             body.append(f'sha256sum < {tmpf} > "{out}"')
         elif kind == "sub":
@@ -236,6 +240,9 @@ class Workspace:
                 d["outputs"] = [("dir::" + out) if self.h["outkind"][t] == "dir" else out]
                 if self.h["outkind"][t] == "pair":
                     d["outputs"] = [out + "/1", out + "/2"]
+                if self.h["outkind"][t] == "bin":
+                    del d["outputs"]
+                    d["bin_output"] = out
             deps = sorted(self.h["decldeps"][t])
             if deps:
                 d["dependencies"] = [":" + x for x in deps]
